@@ -2019,10 +2019,13 @@ func (mvcc *MVCCLevelDB) doRawDeleteRange(cf string, startKey, endKey []byte) er
 	}
 
 	batch := &leveldb.Batch{}
-	iter := db.NewIterator(&util.Range{
-		Start: startKey,
-		Limit: endKey,
-	}, nil)
+	keyRange := &util.Range{Start: startKey}
+	if len(endKey) > 0 {
+		// An empty end key means unbounded, whether it is nil or not
+		// (leveldb treats only a nil Limit as unbounded).
+		keyRange.Limit = endKey
+	}
+	iter := db.NewIterator(keyRange, nil)
 	for iter.Next() {
 		batch.Delete(iter.Key())
 	}
